@@ -560,6 +560,15 @@ func c14EnumUnit(c *mon.Ctx, r *mon.Rng, per, combos int) {
 		c.Distinct("enum\x00" + s0)
 		c.Count("enum layout: "+et.Layout, 1)
 		c14Positive(c, r, "enum", s0, "closer", trailers, combos)
+		// a block comment after the closing bracket belongs to the rule text; text on the same
+		// line may follow it after a blank
+		if k%4 == 1 {
+			s1 := s0 + mon.Pick(r, []string{" /* letters */", "/* c */", "\t/* a\n   b */", " /**/"})
+			if lib.Safe(enum.New("@e", s1).Check).OK {
+				c.Count("enum texts ending in a block comment after the closing bracket", 1)
+				c14Positive(c, r, "enum", s1, "multi", trailers, combos/2)
+			}
+		}
 		// every proper prefix is incomplete (the closing bracket is the last byte)
 		var cuts []int
 		for p := 0; p < len(s0); p++ {
